@@ -4,6 +4,7 @@ Driver glue for M-Classes (C15).  Not part of the proved core.
   (config (<role> <id>) …)        registers user class number <id> for <role>; everything else default
   (path <name> (<role> …))        the classes instantiated on creation path <name> for the given roles
                                    (the roles the generated content makes the path create)
+  (multi (<name> (<role> …)) …)   the union of several path queries (one sweep after several operations)
   (props <Glyph|Contour>)         the values of the public class properties of such an object
 -/
 import DefconModel.Util.SExp
@@ -67,6 +68,19 @@ def driverStep (d : DState) (line : SExp) : DState × SExp :=
   | .list [.atom "path", .atom name, .list roles] =>
     match roles.mapM parseRole with
     | some rs => if (AL.get? paths name).isSome then (d, pathOut d.toCfg name rs) else (d, .atom "bad-op")
+    | none => (d, .atom "bad-op")
+  | .list (.atom "multi" :: qs) =>
+    -- several path queries answered at once (a sweep that follows several operations): union of the sets
+    match qs.mapM (fun q => match q with
+        | .list [.atom name, .list roles] => do
+          let rs ← roles.mapM parseRole
+          if (AL.get? paths name).isSome then some (name, rs) else none
+        | _ => none) with
+    | some items =>
+      (d, tagged "set" ((items.flatMap fun it =>
+        match pathOut d.toCfg it.1 it.2 with
+        | .list (_ :: xs) => xs
+        | _ => []).eraseDups))
     | none => (d, .atom "bad-op")
   | .list [.atom "props", .atom cls] =>
     if cls = "Glyph" || cls = "Contour" then (d, propsOut d.toCfg cls) else (d, .atom "bad-op")
